@@ -27,7 +27,7 @@ from proxy.common.constants import DEFAULT_SELECTOR_SELECT_TIMEOUT, DEFAULT_WAIT
 
 PROPERTY = 'C20'
 LEVEL = 'exploration'
-LEVEL_TEXT = ('Exploration: seeded timed traces (timeouts 1/5/10/3600 s; scenarios: silent connection, partial request, '
+LEVEL_TEXT = ('Exploration: seeded timed traces (timeouts 1/5/10/3600 s from the command line and 0.9/1.9/2.5 s through the embedding keyword; scenarios: silent connection, partial request, '
               'keep-alive HTTP exchange, tunnel with client->upstream traffic only, upstream->client traffic only, both, '
               'pending undelivered output, a busy neighbour connection on the same worker; series of sub-threshold gaps '
               'followed by a final gap at timeout-eps / timeout+eps, eps = 1 ms or 0.5 s) x threadless (real _run_forever '
@@ -80,6 +80,14 @@ class Conn:
         self.expect_o = b''
 
 
+def flags_T(T: Any, key: str, extra: Any = (), **kw: Any) -> Any:
+    """Whole seconds come from the command line (--timeout is an integer option); a non-integral timeout can only be given
+    through the embedding API's keyword (proxy.Proxy([...], timeout=1.9)) and is the configured value just the same."""
+    if isinstance(T, float) and T != int(T):
+        return make_flags(list(extra), cache_key='%s:kw:%s' % (key, T), timeout=T, **kw)
+    return make_flags(['--timeout', str(T)] + list(extra), cache_key='%s:%s' % (key, T), **kw)
+
+
 def run_threadless(case: Dict[str, Any]) -> Dict[str, Any]:
     rng = random.Random('c20:%s:%s' % (case['seed'], case['i']))
     T = case['timeout']
@@ -87,7 +95,7 @@ def run_threadless(case: Dict[str, Any]) -> Dict[str, Any]:
     vc = vclock.install()
     shim.S.reset()
     del _evals[:]
-    flags = make_flags(['--timeout', str(T)], cache_key='c20:%d' % T)
+    flags = flags_T(T, 'c20')
     rig = StepRig(flags, 'local')
     viol: List[Dict[str, Any]] = []
     obs: Dict[str, int] = {}
@@ -401,7 +409,7 @@ def run_threadless(case: Dict[str, Any]) -> Dict[str, Any]:
     finally:
         rig.close()
         vclock.uninstall()
-    obs.update({'scenario:' + scen: 1, 'rig:threadless': 1, 'timeout:%d' % T: 1, 'is_inactive_evaluations': len(_evals),
+    obs.update({'scenario:' + scen: 1, 'rig:threadless': 1, 'timeout:%s' % T: 1, 'fractional_timeouts': 1 if T != int(T) else 0, 'is_inactive_evaluations': len(_evals),
                 'is_inactive_true': sum(1 for e in _evals if e[0]), 'iterations': state['iter'],
                 'busy_neighbour_cases': 1 if case.get('busy_neighbour') else 0,
                 'older_busy_neighbour_cases': 1 if case.get('busy_neighbour') == 'older' else 0})
@@ -472,9 +480,9 @@ def run_threaded_pending(case: Dict[str, Any]) -> Dict[str, Any]:
     if tls_front:
         from checks import c10
         key, crt = c10.tls_files()
-        flags = make_flags(['--timeout', str(T), '--key-file', key, '--cert-file', crt], cache_key='c20t:%d:tls' % T, threaded=True)
+        flags = flags_T(T, 'c20t:tls', ['--key-file', key, '--cert-file', crt], threaded=True)
     else:
-        flags = make_flags(['--timeout', str(T)], cache_key='c20t:%d' % T, threaded=True)
+        flags = flags_T(T, 'c20t', threaded=True)
     rig = ThreadRig(flags)
     viol: List[Dict[str, Any]] = []
     obs: Dict[str, int] = {}
@@ -559,7 +567,7 @@ def run_threaded_pending(case: Dict[str, Any]) -> Dict[str, Any]:
     finally:
         rig.close()
         vclock.uninstall()
-    obs.update({'scenario:pending-output': 1, 'rig:threaded': 1, 'timeout:%d' % T: 1, 'is_inactive_evaluations': len(_evals),
+    obs.update({'scenario:pending-output': 1, 'rig:threaded': 1, 'timeout:%s' % T: 1, 'fractional_timeouts': 1 if T != int(T) else 0, 'is_inactive_evaluations': len(_evals),
                 'is_inactive_true': sum(1 for e in _evals if e[0])})
     return {'viol': viol, 'nontrivial': True, 'inconclusive': inconclusive, 'sig': 'thp/%d/%s' % (T, case.get('flood')), 'obs': obs,
             'sample': {'case': case}}
@@ -574,7 +582,7 @@ def run_threaded(case: Dict[str, Any]) -> Dict[str, Any]:
     vc = vclock.install()
     shim.S.reset()
     del _evals[:]
-    flags = make_flags(['--timeout', str(T)], cache_key='c20t:%d' % T, threaded=True)
+    flags = flags_T(T, 'c20t', threaded=True)
     rig = ThreadRig(flags)
     viol: List[Dict[str, Any]] = []
     obs: Dict[str, int] = {}
@@ -699,7 +707,7 @@ def run_threaded(case: Dict[str, Any]) -> Dict[str, Any]:
     finally:
         rig.close()
         vclock.uninstall()
-    obs.update({'scenario:' + scen: 1, 'rig:threaded': 1, 'timeout:%d' % T: 1, 'is_inactive_evaluations': len(_evals),
+    obs.update({'scenario:' + scen: 1, 'rig:threaded': 1, 'timeout:%s' % T: 1, 'fractional_timeouts': 1 if T != int(T) else 0, 'is_inactive_evaluations': len(_evals),
                 'is_inactive_true': sum(1 for e in _evals if e[0])})
     return {'viol': viol, 'nontrivial': bool(case['gaps']), 'inconclusive': inconclusive,
             'sig': 'th/%s/%d/%s/%s' % (scen, T, case['eps'], case['gaps']), 'obs': obs,
@@ -720,7 +728,7 @@ def cases(tier: str, seed: int):
     for i in range(n):
         scen = SCEN[i % len(SCEN)]
         rigk = 'thread' if (i // len(SCEN)) % 4 == 3 and scen != 'upstream-drain' else 'step'
-        T = rng.choice([1, 1, 5, 10, 3600])
+        T = rng.choice([1, 1, 5, 10, 3600, 1.9, 2.5, 0.9])
         ngaps = rng.choice([0, 1, 2, 4]) if scen not in ('silent',) else 0
         gaps = [round(rng.choice([0.1, 0.5, 0.9, 0.99, 0.999]), 3) for _ in range(ngaps)]
         yield {'seed': seed, 'i': i, 'scenario': scen, 'rig': rigk, 'timeout': T, 'gaps': gaps, 'eps': rng.choice([0.001, 0.5]),
@@ -729,7 +737,7 @@ def cases(tier: str, seed: int):
 
 
 def floors(tier: str) -> Dict[str, int]:
-    fl = {'reaped_within_bound': 250, 'stay_open_windows': 600, 'rig:threaded': 50, 'rig:threadless': 250, 'is_inactive_evaluations': 3000,
+    fl = {'fractional_timeouts': 60, 'reaped_within_bound': 250, 'stay_open_windows': 600, 'rig:threaded': 50, 'rig:threadless': 250, 'is_inactive_evaluations': 3000,
           'busy_neighbour_survived': 40, 'older_busy_neighbour_cases': 15, 'pending_output_threaded_delivered': 8, 'tls_front_pending_cases': 4}
     for s in SCEN:
         fl['scenario:' + s] = 30
